@@ -26,6 +26,8 @@ struct Ref
 {
     uint64_t C[118], S[507], M[12][12], Pm[12][12];
     uint64_t Minv[12][12]; // inverse of the linear layer x -> (sum_j M[j][i] x_j)_i
+    uint64_t Pinv[12][12]; // the same for the P layer
+    uint64_t Sden[22];     // partial round r: 1 / (S0 - sum_k w_k v_k)
     uint64_t root7;        // exponent e with x^(7e) = x
     Ref()
     {
@@ -52,20 +54,25 @@ struct Ref
         memcpy(st, o, sizeof o);
     }
     static inline uint64_t p7(uint64_t x) { uint64_t x2 = orc::mul(x, x), x4 = orc::mul(x2, x2); return orc::mul(orc::mul(x4, x2), x); }
-    void permute(uint64_t out[12], const uint64_t in[12]) const
+    // stages: 0..2 first full rounds, 3 the round whose linear layer is P, 4..25 partial rounds, 26..28 full rounds, 29 last round.
+    // cap_stage: copy the vector that enters the linear step of that stage into cap
+    void permute(uint64_t out[12], const uint64_t in[12], int cap_stage = -1, uint64_t *cap = nullptr) const
     {
         uint64_t st[12];
         for (int i = 0; i < 12; i++) st[i] = orc::add(orc::canon(in[i]), C[i]);
         for (int r = 0; r < 3; r++)
         {
             for (int i = 0; i < 12; i++) st[i] = orc::add(p7(st[i]), C[(r + 1) * 12 + i]);
+            if (cap_stage == r) memcpy(cap, st, sizeof st);
             lin(st, M);
         }
         for (int i = 0; i < 12; i++) st[i] = orc::add(p7(st[i]), C[4 * 12 + i]);
+        if (cap_stage == 3) memcpy(cap, st, sizeof st);
         lin(st, Pm);
         for (int r = 0; r < 22; r++)
         {
             st[0] = orc::add(p7(st[0]), C[5 * 12 + r]);
+            if (cap_stage == 4 + r) memcpy(cap, st, sizeof st);
             uint64_t s0 = 0;
             for (int j = 0; j < 12; j++) s0 = orc::add(s0, orc::mul(S[23 * r + j], st[j]));
             for (int k = 1; k < 12; k++) st[k] = orc::add(st[k], orc::mul(st[0], S[23 * r + 12 + k - 1]));
@@ -74,18 +81,131 @@ struct Ref
         for (int r = 0; r < 3; r++)
         {
             for (int i = 0; i < 12; i++) st[i] = orc::add(p7(st[i]), C[5 * 12 + 22 + r * 12 + i]);
+            if (cap_stage == 26 + r) memcpy(cap, st, sizeof st);
             lin(st, M);
         }
         for (int i = 0; i < 12; i++) st[i] = p7(st[i]);
+        if (cap_stage == 29) memcpy(cap, st, sizeof st);
         lin(st, M);
+        memcpy(out, st, sizeof st);
+    }
+    // a second, faster arithmetic for very long sponge inputs (2^64 = 2^32-1, 2^96 = -1 mod p, plain C); cross-checked against the
+    // u128 % oracle on random and boundary states at start-up (selfcheck_fast)
+    static inline uint64_t fadd(uint64_t a, uint64_t b) { uint64_t s = a + b; if (s < a) s += 0xFFFFFFFFULL; return s >= PP ? s - PP : s; } // a, b canonical
+    static inline uint64_t fmul(uint64_t a, uint64_t b)
+    {
+        u128 x = (u128)a * b;
+        uint64_t lo = (uint64_t)x, hi = (uint64_t)(x >> 64), hh = hi >> 32, hl = hi & 0xFFFFFFFFULL;
+        uint64_t t = lo - hh;
+        if (lo < hh) t -= 0xFFFFFFFFULL;
+        uint64_t m = hl * 0xFFFFFFFFULL;
+        uint64_t r = t + m;
+        if (r < m) r += 0xFFFFFFFFULL;
+        return r >= PP ? r - PP : r;
+    }
+    static void lin_fast(uint64_t st[12], const uint64_t mat[12][12])
+    {
+        uint64_t o[12];
+        for (int i = 0; i < 12; i++)
+        {
+            uint64_t acc = 0;
+            for (int j = 0; j < 12; j++) acc = fadd(acc, fmul(mat[j][i], st[j]));
+            o[i] = acc;
+        }
+        memcpy(st, o, sizeof o);
+    }
+    static inline uint64_t p7_fast(uint64_t x) { uint64_t x2 = fmul(x, x), x4 = fmul(x2, x2); return fmul(fmul(x4, x2), x); }
+    void permute_fast(uint64_t out[12], const uint64_t in[12], int cap_stage = -1, uint64_t *cap = nullptr) const
+    {
+        uint64_t st[12];
+        for (int i = 0; i < 12; i++) st[i] = fadd(orc::canon(in[i]), C[i]);
+        for (int r = 0; r < 3; r++)
+        {
+            for (int i = 0; i < 12; i++) st[i] = fadd(p7_fast(st[i]), C[(r + 1) * 12 + i]);
+            if (cap_stage == r) memcpy(cap, st, sizeof st);
+            lin_fast(st, M);
+        }
+        for (int i = 0; i < 12; i++) st[i] = fadd(p7_fast(st[i]), C[4 * 12 + i]);
+        if (cap_stage == 3) memcpy(cap, st, sizeof st);
+        lin_fast(st, Pm);
+        for (int r = 0; r < 22; r++)
+        {
+            st[0] = fadd(p7_fast(st[0]), C[5 * 12 + r]);
+            if (cap_stage == 4 + r) memcpy(cap, st, sizeof st);
+            uint64_t s0 = 0;
+            for (int j = 0; j < 12; j++) s0 = fadd(s0, fmul(S[23 * r + j], st[j]));
+            for (int k = 1; k < 12; k++) st[k] = fadd(st[k], fmul(st[0], S[23 * r + 12 + k - 1]));
+            st[0] = s0;
+        }
+        for (int r = 0; r < 3; r++)
+        {
+            for (int i = 0; i < 12; i++) st[i] = fadd(p7_fast(st[i]), C[5 * 12 + 22 + r * 12 + i]);
+            if (cap_stage == 26 + r) memcpy(cap, st, sizeof st);
+            lin_fast(st, M);
+        }
+        for (int i = 0; i < 12; i++) st[i] = p7_fast(st[i]);
+        if (cap_stage == 29) memcpy(cap, st, sizeof st);
+        lin_fast(st, M);
         memcpy(out, st, sizeof st);
     }
     void invert()
     {
+        invert_mat(M, Minv);
+        invert_mat(Pm, Pinv);
+        for (int r = 0; r < 22; r++)
+        {
+            uint64_t d = S[23 * r];
+            for (int k = 1; k < 12; k++) d = orc::sub(d, orc::mul(S[23 * r + k], S[23 * r + 11 + k]));
+            if (d == 0) { fprintf(stderr, "partial round %d not invertible?\n", r); abort(); }
+            Sden[r] = orc::inv(d);
+        }
+    }
+    static void apply_inv(uint64_t v[12], const uint64_t inv[12][12])
+    {
+        uint64_t o[12];
+        for (int i = 0; i < 12; i++)
+        {
+            uint64_t acc = 0;
+            for (int j = 0; j < 12; j++) acc = orc::add(acc, orc::mul(inv[i][j], v[j]));
+            o[i] = acc;
+        }
+        memcpy(v, o, sizeof o);
+    }
+    // input state such that the vector entering the linear step of `stage` (numbering of permute) equals T
+    void solve_stage(uint64_t in[12], const uint64_t T[12], int stage) const
+    {
+        uint64_t v[12];
+        for (int i = 0; i < 12; i++) v[i] = orc::canon(T[i]);
+        for (int k = stage; k >= 0; k--)
+        {
+            // undo the non-linear step of stage k
+            if (k <= 3) for (int i = 0; i < 12; i++) v[i] = orc::pw(orc::sub(v[i], C[(k + 1) * 12 + i]), root7);
+            else if (k <= 25) v[0] = orc::pw(orc::sub(v[0], C[60 + (k - 4)]), root7);
+            else if (k <= 28) for (int i = 0; i < 12; i++) v[i] = orc::pw(orc::sub(v[i], C[82 + (k - 26) * 12 + i]), root7);
+            else for (int i = 0; i < 12; i++) v[i] = orc::pw(v[i], root7);
+            if (k == 0) break;
+            // undo the linear step of stage k-1
+            int q = k - 1;
+            if (q <= 2 || q >= 26) apply_inv(v, Minv);
+            else if (q == 3) apply_inv(v, Pinv);
+            else
+            {
+                int r = q - 4;
+                uint64_t acc = v[0];
+                for (int j = 1; j < 12; j++) acc = orc::sub(acc, orc::mul(S[23 * r + j], v[j]));
+                uint64_t x0 = orc::mul(acc, Sden[r]);
+                for (int j = 1; j < 12; j++) v[j] = orc::sub(v[j], orc::mul(x0, S[23 * r + 11 + j]));
+                v[0] = x0;
+            }
+        }
+        for (int i = 0; i < 12; i++) in[i] = orc::sub(v[i], C[i]);
+    }
+    static void invert_mat(const uint64_t Mx[12][12], uint64_t out[12][12])
+    {
         // A[i][j] = M[j][i]; Gauss-Jordan mod p
         uint64_t a[12][24];
         for (int i = 0; i < 12; i++)
-            for (int j = 0; j < 12; j++) { a[i][j] = M[j][i]; a[i][12 + j] = i == j; }
+            for (int j = 0; j < 12; j++) { a[i][j] = Mx[j][i]; a[i][12 + j] = i == j; }
         for (int c = 0; c < 12; c++)
         {
             int pv = -1;
@@ -101,7 +221,7 @@ struct Ref
                     for (int k = 0; k < 24; k++) a[r][k] = orc::sub(a[r][k], orc::mul(f, a[c][k]));
                 }
         }
-        for (int i = 0; i < 12; i++) for (int j = 0; j < 12; j++) Minv[i][j] = a[i][12 + j];
+        for (int i = 0; i < 12; i++) for (int j = 0; j < 12; j++) out[i][j] = a[i][12 + j];
     }
     // input state such that the vector entering the linear layer of full round `depth` (0..2) equals T
     void solve_input(uint64_t in[12], const uint64_t T[12], int depth) const
@@ -142,7 +262,7 @@ struct Ref
             uint64_t blk[12];
             for (int i = 0; i < 8; i++) blk[i] = pos + i < size ? in[pos + i] : 0;
             for (int i = 0; i < 4; i++) blk[8 + i] = cap[i];
-            permute(st, blk);
+            if (size > 100000) permute_fast(st, blk); else permute(st, blk);
             for (int i = 0; i < 4; i++) cap[i] = st[i];
         }
         for (int i = 0; i < 4; i++) out[i] = st[i];
@@ -199,6 +319,7 @@ struct StateGen
 {
     gen::G64 g;
     const Ref &ref;
+    int selfchecks = 0;
     StateGen(const Ref &r) : ref(r) {}
     // returns family name
     const char *make(Rng &r, uint64_t st[12], uint64_t idx)
@@ -222,6 +343,81 @@ struct StateGen
         case 3:
             for (int i = 0; i < 12; i++) st[i] = g.pick(r);
             return "mixed_g64";
+        case 6:
+        case 7:
+        {
+            // inverse-constructed through the whole permutation: choose the vector T that enters the linear step of stage 3..29
+            // (P layer, every partial round, the second half of full rounds). Targets are chosen relative to the coefficients that
+            // multiply them there: the PRODUCT coefficient*T[j] is what lands on a boundary (tiny residues, residues next to p, 0, ...)
+            int stage = 3 + (int)((idx / 8) % 27);
+            uint64_t T[12];
+            int style = (int)r.below(6);
+            auto resid = [&](int st_) -> uint64_t {
+                switch (st_)
+                {
+                case 0: return r.below(1ULL << 32);                       // residues below 2^32: the only ones with a second representation
+                case 1: return r.below(4);                                // 0,1,2,3
+                case 2: return PP - 1 - r.below(1ULL << 32);              // just below p
+                case 3: return g.fixed[r.below(g.fixed.size())] % PP;     // boundary vector
+                case 4: return r.coin() ? r.below(1ULL << 32) : PP - 1 - r.below(1ULL << 20);
+                default: return r.next() % PP;
+                }
+            };
+            if (stage >= 4 && stage <= 25)
+            {
+                int pr = stage - 4;
+                bool by_column = r.below(4) == 0; // products of T[0] with the column coefficients instead of the dot coefficients
+                for (int j = 0; j < 12; j++)
+                {
+                    uint64_t co = ref.S[23 * pr + j];
+                    T[j] = co ? orc::mul(resid(style), orc::inv(co)) : resid(style);
+                }
+                if (by_column)
+                {
+                    int k = 1 + (int)r.below(11);
+                    uint64_t co = ref.S[23 * pr + 11 + k];
+                    if (co) T[0] = orc::mul(resid(style), orc::inv(co));
+                }
+                if (style == 3 && r.coin()) for (int j = 0; j < 12; j++) T[j] = g.fixed[r.below(g.fixed.size())]; // the vector itself on boundaries
+            }
+            else if (stage == 3)
+            {
+                int col = (int)r.below(12);
+                for (int j = 0; j < 12; j++)
+                {
+                    uint64_t co = ref.Pm[j][col];
+                    T[j] = co ? orc::mul(resid(style), orc::inv(co)) : resid(style);
+                }
+            }
+            else
+            {
+                int row = (int)r.below(12);
+                for (int j = 0; j < 12; j++)
+                {
+                    uint64_t m = PC::M_[12 * row + j].fe;
+                    if (m == 0) m = 1;
+                    switch (style)
+                    {
+                    case 0: T[j] = (0xFFFFFFFFFFFFFFFFULL - r.below(4)) / m; break;
+                    case 1: T[j] = (PP + r.below(0xFFFFFFFFULL)) / m; break;
+                    case 2: T[j] = g.fixed[r.below(g.fixed.size())]; break;
+                    case 3: T[j] = r.coin() ? 0x5555555555555555ULL : 0xFFFFFFFFFFFFFFFFULL / (1 + r.below(255)); break;
+                    default: T[j] = r.below(3) ? (PP - 1 - r.below(1ULL << 33)) : r.below(1ULL << 33); break;
+                    }
+                }
+            }
+            ref.solve_stage(st, T, stage);
+            if (selfchecks < 64)
+            {
+                // the oracle must reproduce the chosen vector at that stage from the solved input (harness self-check)
+                uint64_t o[12], cap[12];
+                ref.permute(o, st, stage, cap);
+                for (int i = 0; i < 12; i++) if (cap[i] != orc::canon(T[i])) { fprintf(stderr, "harness error: solve_stage(%d) does not reproduce its target\n", stage); abort(); }
+                selfchecks++;
+            }
+            if (r.coin()) for (int i = 0; i < 12; i++) if (st[i] < 0xFFFFFFFFULL && r.coin()) st[i] += PP;
+            return stage == 3 ? "inverse_constructed_P_layer" : (stage <= 25 ? "inverse_constructed_partial_round" : "inverse_constructed_second_half");
+        }
         default:
         {
             // inverse-constructed: choose the vector T that must reach the linear layer of full round `depth`
@@ -392,11 +588,26 @@ static void run_c07(const vf::Args &args, Report &rep)
     for (uint64_t l = 0; l <= 264; l++) lens.push_back(l);
     for (uint64_t l : {1000ULL, 4096ULL, 4097ULL, 65537ULL}) lens.push_back(l);
     if (args.thorough()) for (uint64_t l : {1048576ULL + 5, 777777ULL}) lens.push_back(l);
+    // beyond 2^24 elements (lengths a float cannot hold exactly): only in the runs that ask for it (production flags; 128 MiB per input)
+    if (args.getu("beyond24", 0)) { lens.push_back((1ULL << 24) + 1); if (args.thorough()) lens.push_back((1ULL << 24) + 9); }
+    {
+        // the fast arithmetic used by the oracle for inputs longer than 100000 elements must agree with the u128 % oracle
+        Rng q(vf::mix64(args.seed, 0xFA57));
+        for (int k = 0; k < 3000; k++)
+        {
+            uint64_t a[12], o1[12], o2[12];
+            for (int i = 0; i < 12; i++) a[i] = k % 3 == 0 ? g.fixed[q.below(g.fixed.size())] : (k % 3 == 1 ? g.pick(q) : q.next());
+            ref.permute(o1, a);
+            ref.permute_fast(o2, a);
+            if (memcmp(o1, o2, sizeof o1)) { fprintf(stderr, "harness error: the two oracle arithmetics disagree\n"); abort(); }
+        }
+        rep.cls("oracle:fast_arithmetic_crosschecked", 3000);
+    }
     uint64_t contents = args.getu("contents", args.thorough() ? 2000 : 48);
     uint64_t idx = 0;
     static const uint64_t SENT = 0x5E5E5E5E5E5E5E5EULL;
     for (uint64_t l : lens)
-        for (uint64_t ct = 0; ct < (l > 300 ? std::max<uint64_t>(2, contents / 16) : contents); ct++, idx++)
+        for (uint64_t ct = 0; ct < (l > 10000000 ? 1 : (l > 300 ? std::max<uint64_t>(2, contents / 16) : contents)); ct++, idx++)
         {
             if ((int)(vf::mix64(idx, 3) % args.nshards) != args.shard) continue;
             Rng r(vf::mix64(vf::mix64(args.seed, l), ct));
@@ -419,8 +630,9 @@ static void run_c07(const vf::Args &args, Report &rep)
                 for (int i = 0; i < 8; i++) in[i] = st[i];
             }
             uint64_t e1[4], e2[4];
+            if (l > 10000000) memcpy(in.data() + l, in.data(), l * 8); // very long: the same content twice, one oracle sponge
             ref.sponge(e1, in.data(), l);
-            ref.sponge(e2, in.data() + l, l);
+            if (l > 10000000) memcpy(e2, e1, sizeof e2); else ref.sponge(e2, in.data() + l, l);
             bool upper = (ct & 1) == 0;
             rep.evaluations++;
             auto check4 = [&](const char *backend, const uint64_t *cells, const uint64_t *exp, int which) {
@@ -482,6 +694,7 @@ static void run_c07(const vf::Args &args, Report &rep)
             if (l == 0) rep.cls("len:zero");
             if (l == 4 || l == 5) rep.cls("len:threshold_4_5");
             if (l > 300) rep.cls("len:long");
+            if (l > (1ULL << 24)) rep.cls("len:beyond_2^24_elements");
             rep.cls(upper ? "arena:guard_page_after_input" : "arena:guard_page_before_input");
             rep.nontrivial(vf::mix64(l, ct ^ in[0]));
             if (ct == 0 && (l % 37) == 0) rep.sample("linear_hash", J().u("length", l).str("content", style == 0 ? "uniform" : (style == 1 ? "boundary" : (style == 2 ? "mixed" : "inverse_constructed_first_block"))).done());
@@ -661,6 +874,62 @@ static void run_c08(const vf::Args &args, Report &rep)
     rep.cls("family:merkle_configs", mineidx.size());
 }
 
+// C06: the entry points called at the same time by several plain threads (not an OpenMP team), every thread on its own states
+static void run_c06_concurrent(const vf::Args &args, Report &rep)
+{
+    Ref ref;
+    StateGen sg(ref);
+    const int T = 8;
+    uint64_t per = args.getu("concurrent_states", args.thorough() ? 400000ULL : 24000ULL) / args.nshards / T + 1;
+    struct Job { uint64_t st[12], exp[12]; };
+    std::vector<std::vector<Job>> jobs(T, std::vector<Job>(per));
+    Rng rng(vf::mix64(args.seed, 0xC06C + args.shard * 977));
+    for (auto &v : jobs)
+        for (auto &j : v) { static uint64_t ctr = 0; sg.make(rng, j.st, ctr++); ref.permute(j.exp, j.st); }
+    struct Bad { const char *backend = nullptr; Job j; uint64_t got[12]; };
+    Bad bad[T];
+    vf::team(T, [&](int me) {
+        for (int rep_i = 0; rep_i < 4; rep_i++)
+            for (uint64_t k = 0; k < per; k++)
+            {
+                Job &j = jobs[me][k];
+                El in[12], out[12];
+                for (int i = 0; i < 12; i++) in[i].fe = j.st[i];
+                auto chk = [&](const char *backend, const El *got, const uint64_t *exp, int n) {
+                    for (int i = 0; i < n; i++)
+                        if (orc::canon(got[i].fe) != exp[i] && !bad[me].backend) { bad[me].backend = backend; bad[me].j = j; for (int q = 0; q < 12; q++) bad[me].got[q] = q < n ? got[q].fe : 0; }
+                };
+                PoseidonGoldilocks::hash_full_result_seq(out, in);
+                chk("hash_full_result_seq", out, j.exp, 12);
+                PoseidonGoldilocks::hash_full_result(out, in);
+                chk("hash_full_result", out, j.exp, 12);
+                El c4[4];
+                PoseidonGoldilocks::hash_seq((El(&)[4]) * c4, (const El(&)[12]) * in);
+                chk("hash_seq", c4, j.exp, 4);
+                PoseidonGoldilocks::hash((El(&)[4]) * c4, (const El(&)[12]) * in);
+                chk("hash", c4, j.exp, 4);
+#ifdef __AVX512__
+                {
+                    Job &j2 = jobs[me][(k + 1) % per];
+                    El in2[24], out2[24];
+                    for (int i = 0; i < 12; i++) { in2[(i / 4) * 8 + i % 4].fe = j.st[i]; in2[(i / 4) * 8 + 4 + i % 4].fe = j2.st[i]; }
+                    PoseidonGoldilocks::hash_full_result_avx512(out2, in2);
+                    El oa[12], ob[12];
+                    for (int i = 0; i < 12; i++) { oa[i] = out2[(i / 4) * 8 + i % 4]; ob[i] = out2[(i / 4) * 8 + 4 + i % 4]; }
+                    chk("hash_full_result_avx512", oa, j.exp, 12);
+                    if (!bad[me].backend) { for (int i = 0; i < 12; i++) if (orc::canon(ob[i].fe) != j2.exp[i]) { bad[me].backend = "hash_full_result_avx512"; bad[me].j = j2; for (int q = 0; q < 12; q++) bad[me].got[q] = ob[q].fe; break; } }
+                }
+#endif
+            }
+    });
+    for (int t = 0; t < T; t++)
+        if (bad[t].backend)
+            rep.violation(std::string("C06:") + bad[t].backend + ":concurrent-callers:wrong-value",
+                          J().str("backend", bad[t].backend).str("what", "8 plain threads permuting their own states at the same time").raw("input", vf::jarr_hex(bad[t].j.st, 12)).raw("got", vf::jarr_hex(bad[t].got, 12)).raw("expected", vf::jarr_hex(bad[t].j.exp, 12)).i("thread", t).done());
+    rep.evaluations += per * T * 4;
+    rep.cls("family:concurrent_callers", per * T * 4);
+}
+
 // C07: the three variants called concurrently from a team of threads, every thread on its own inputs
 static void run_c07_concurrent(const vf::Args &args, Report &rep)
 {
@@ -684,9 +953,8 @@ static void run_c07_concurrent(const vf::Args &args, Report &rep)
         int bad[T];
         uint64_t badlen[T];
         for (int t = 0; t < T; t++) bad[t] = 0;
-#pragma omp parallel num_threads(T)
-        {
-            int me = omp_get_thread_num() % T;
+        vf::team(T, [&](int me_) {
+            int me = me_;
             for (int rep_i = 0; rep_i < 20; rep_i++)
                 for (size_t k = me; k < jobs.size(); k += T)
                 {
@@ -702,7 +970,7 @@ static void run_c07_concurrent(const vf::Args &args, Report &rep)
                     if ((!ok4(o, j.e1) || !ok4(o + 4, j.e2)) && !bad[me]) { bad[me] = 3; badlen[me] = j.len; }
 #endif
                 }
-        }
+        });
         static const char *VN[] = {"", "linear_hash_seq", "linear_hash", "linear_hash_avx512"};
         for (int t = 0; t < T; t++)
             if (bad[t])
@@ -719,7 +987,7 @@ int main(int argc, char **argv)
     Report rep;
     rep.open(args.prop, args.out);
     std::string what = args.get("what", args.prop);
-    if (what == "C06") run_c06(args, rep);
+    if (what == "C06") { run_c06(args, rep); run_c06_concurrent(args, rep); }
     else if (what == "C07") { run_c07(args, rep); run_c07_concurrent(args, rep); }
     else if (what == "C08") run_c08(args, rep);
     else if (what == "tablehash") { printf("0x%016llxULL\n", (unsigned long long)table_hash()); return 0; }
